@@ -14,6 +14,7 @@
 //!   glue …                      `\skip0=…`
 //!   gp w st so sh sho           Display of a `Glue`, `\the\skip2`, and `\skip0=\the\skip2`
 //!   op <adv|mul|div> <int|dim|glue> …   `\advance`, `\multiply`, `\divide` on `\count0`/`\dimen0`/`\skip0`
+//!   seq <int|dim> a (adv|mul|div b)*   a program of primitives on `\count0` / `\dimen0`
 //!   kx x n d | kn x n y | ks ip f unit | kf digits | ki i   the kernels through the `common::Scaled` API
 //!   tint|tdim|tglue|tidx <flag> <text>  raw text after `\count0=` / `\dimen0=` / `\skip0=` / `\advance\count`
 //!                               (`_` space, `!` = `\count2=5 `): where the constant ends; Lean cuts the text
@@ -902,6 +903,11 @@ impl Property for C06 {
             for k in ["by", "plus", "minus", "fil", "fill", "filll", "fillll", "FIL", "fiLL", "FILLL", "filL", "fIlLlL", "pT", "Pt", "TRUEpt", "tRuEin", "eM", "Ex", "true", "to", "depth", "b", "by5"] {
                 followers.push(k.to_string());
             }
+            // blanks before keywords (TeX §407 scan_keyword skips them): after `true`, between `fil` and `l`s,
+            // before `plus`/`minus`/units after an already consumed optional space
+            for x in ["true_pt", "true_cm", "TRUE_in", "true__bp", "_true_pt", "_true_mm", "fil_l", "fil_l_l", "fil_L", "fill_l", "fil_lL", "FIL_L_l", "fil_lll", "fil_x", "fil_", "em_", "_em", "_ex_x", "__pt", "_pt_", "true_em", "true_xy"] {
+                followers.push(x.to_string());
+            }
             // a space ends the number: a decimal point after it does not start a fraction (TeX §448)
             for x in ["_.5pt", "_,5pt", "_.5", "_.pt", "_.5fil", "_,25fill", "_.99999in", "_.5_pt", ".5_pt", ",5pt", "_._5pt", "_.5truecm", "_.5em"] {
                 followers.push(x.to_string());
@@ -941,7 +947,7 @@ impl Property for C06 {
                                 match n % 5 {
                                     0 => v.push(format!("tglue {fl} {sg}{core}")),
                                     1 => v.push(format!("tglue {fl} 1pt_plus{sg}{core}")),
-                                    2 => v.push(format!("tglue {fl} 1ptplus{core}minus{core}")),
+                                    2 => v.push(format!("tglue {fl} 1ptplus{core}_minus_{core}")),
                                     3 => v.push(format!("tglue {fl} {core}")),
                                     _ => v.push(format!("tglue {fl} 2.5ptminus{sg}{core}")),
                                 }
@@ -1224,6 +1230,37 @@ impl Property for C06 {
         for _ in 0..(if t { 6000 } else { 1200 }) {
             let g = gen_glue(&mut r, false);
             v.push(format!("gp {}", join(&g)));
+        }
+
+        // ---- programs: several primitives in a row on one register (errors leave it unchanged,
+        // \\advance wraps, the next primitive starts from whatever is there)
+        {
+            let mut r = rng.fork();
+            for _ in 0..(if t { 6000 } else { 800 }) {
+                let ty = *r.pick(&["int", "dim"]);
+                let mut a = interesting_i32(&mut r) as i64;
+                if ty == "dim" && r.chance(2, 3) {
+                    a = a.clamp(-MAXD, MAXD);
+                }
+                let n = r.range(2, 6);
+                let mut s = format!("seq {ty} {a}");
+                for _ in 0..n {
+                    let op = *r.pick(&["adv", "mul", "div"]);
+                    let mut b = match r.below(4) {
+                        0 => r.range(-3, 3),
+                        1 => r.range(-70000, 70000),
+                        _ => interesting_i32(&mut r) as i64,
+                    };
+                    if ty == "dim" && op == "adv" {
+                        b = b.clamp(-MAXD, MAXD); // the summand is a scanned dimension
+                    }
+                    s.push_str(&format!(" {op} {b}"));
+                }
+                v.push(s);
+            }
+            v.push("seq int 5 mul 1000000 mul 1000000 adv 7 div 0 div -2".into());
+            v.push("seq int 2147483647 adv 1 mul -1 div -1 adv -1".into());
+            v.push("seq dim 65536 mul 16383 mul 2 adv 1073741823 div 3".into());
         }
 
         // ---- the kernels through the public `common::Scaled` API (negative operands too)
@@ -1669,6 +1706,40 @@ impl Property for C06 {
                 o.nontrivial = nums.iter().any(|x| *x != 0);
                 compare(&mut o, &stream, &got, &model, &spec);
             }
+            "seq" => {
+                // seq <int|dim> <a> (<adv|mul|div> <b>)*: a program on one register
+                let ty = words[1];
+                let a: i64 = words[2].parse().unwrap();
+                let reg = if ty == "int" { "\\count0" } else { "\\dimen0" };
+                let mut src = if ty == "int" { set_count(0, a) } else { set_dimen(0, a) };
+                let mut k = 3;
+                while k + 1 < words.len() {
+                    let b: i64 = words[k + 1].parse().unwrap();
+                    let cs = match words[k] {
+                        "adv" => "\\advance",
+                        "mul" => "\\multiply",
+                        _ => "\\divide",
+                    };
+                    if ty == "dim" && words[k] == "adv" {
+                        src.push_str(&format!("{}{cs}{reg} by \\dimen3 ", set_dimen(3, b)));
+                    } else {
+                        src.push_str(&format!("{}{cs}{reg} by \\count3 ", set_count(3, b)));
+                    }
+                    k += 2;
+                }
+                let reply = drv.ask(&req);
+                let (m, sp) = split_reply(&reply);
+                let model = parse_want(m, &[a], 1);
+                let spec = parse_want(sp, &[a], 1);
+                let got = match run_tex(&src) {
+                    Err(loc) => Got::Panic(loc),
+                    Ok(obs) => Got::Vals(vec![if ty == "int" { obs.count[0] } else { obs.dimen[0] }], obs.nerr),
+                };
+                let stream = format!("seq-{ty}");
+                o.tag(format!("{stream}:len{}", (words.len() - 3) / 2));
+                classify_tags(&mut o, &stream, &got, &spec);
+                compare(&mut o, &stream, &got, &model, &spec);
+            }
             "kx" | "kn" | "ks" | "kf" | "ki" => {
                 let reply = drv.ask(&req);
                 let (m, sp) = split_reply(&reply);
@@ -1736,7 +1807,10 @@ impl Property for C06 {
                     _ => format!("{catpre}\\count0=7 \\count1=7 \\count2=7 \\count3=7 \\advance\\count{body}"),
                 };
                 let reply = drv.ask(&format!("{kind} {} {text}", flag & 1));
-                let (m, sp) = split_reply(&reply);
+                let parts3: Vec<&str> = reply.split(" | ").collect();
+                let (m, sp) = (parts3[0], parts3.get(1).copied().unwrap_or(""));
+                // third field (tdim/tglue): the model of the code before fixes/C06-j.patch
+                let old_reply = parts3.get(2).copied();
                 // expected: values, nerr, remaining text
                 let parse = |r: &str| -> (Want, String) {
                     let w: Vec<&str> = r.split_ascii_whitespace().collect();
@@ -1827,14 +1901,47 @@ impl Property for C06 {
                 } else {
                     vec![false]
                 };
-                // defect class: a decimal point after the space that ended a number
-                let class = if (kind == "tdim" || kind == "tglue") && (text.contains("_.") || text.contains("_,")) { "[space-point]" } else { "" };
-                if !class.is_empty() {
-                    o.tag(format!("{kind}:space-then-point"));
+                // defect classes: a decimal point after the space that ended a number (C06-i, fixed);
+                // a blank before a keyword (C06-j: the model of the unfixed code explains the text exactly
+                // and differs from the model of the fixed code); a blank between `fil` and `l` (C06-k:
+                // model and TeX differ, the code follows the model)
+                let (old_model, old_out) = match old_reply {
+                    Some(r) => {
+                        let (w, out) = parse(r);
+                        (Some(w), out)
+                    }
+                    None => (None, String::new()),
+                };
+                let blank_kw = old_model.as_ref().map_or(false, |om| *om != model || old_out != mout);
+                let fil_l = model != spec || mout != sout;
+                let space_point = (kind == "tdim" || kind == "tglue") && (text.contains("_.") || text.contains("_,"));
+                if space_point {
+                    o.tag(format!("{kind}:space-point"));
                 }
+                if fil_l {
+                    o.tag(format!("{kind}:fil-blank-l"));
+                } else if blank_kw {
+                    o.tag(format!("{kind}:blank-keyword"));
+                }
+                let agrees = |g: &Got, out: &str, w: &Want, wout: &str| -> bool {
+                    match (g, w) {
+                        (Got::Vals(v, e), Want::Vals(wv, we)) => v == wv && e.map_or(true, |e| e == *we) && out == wout,
+                        _ => false,
+                    }
+                };
                 for std in runs {
-                    let stream = if std { format!("{kind}-stdlib{class}") } else { format!("{kind}{class}") };
                     let (got, out) = observe(std);
+                    // label a recorded deviation only if the implementation does exactly what its model says
+                    let class = if space_point {
+                        "[space-point]"
+                    } else if fil_l && agrees(&got, &out, &model, &mout) {
+                        "[fil-blank-l]"
+                    } else if blank_kw && old_model.as_ref().map_or(false, |om| agrees(&got, &out, om, &old_out)) {
+                        "[blank-keyword]"
+                    } else {
+                        ""
+                    };
+                    let stream = if std { format!("{kind}-stdlib{class}") } else { format!("{kind}{class}") };
                     if out.ends_with("<fatal>") {
                         // the input ended inside a number or keyword: a fatal error in the code, outside the property
                         o.tag(format!("{kind}:fatal-end-of-input"));
